@@ -5,6 +5,7 @@
 package main
 
 import (
+	"runtime/coverage"
 	"bufio"
 	"crypto/sha256"
 	"fmt"
@@ -243,6 +244,18 @@ func simulateAhead(c *Chain, rest []string, n int) {
 }
 
 func main() {
+	// coverage measurement of the generators (tools/coverage.sh): the binary is then built with -cover; the main package comes
+	// from a build overlay and gets no automatic emission hook, so the counters are written explicitly
+	if d := os.Getenv("VERIF_COVDIR"); d != "" {
+		defer func() {
+			if e := coverage.WriteMetaDir(d); e != nil {
+				fmt.Fprintln(os.Stderr, "coverage:", e)
+			}
+			if e := coverage.WriteCountersDir(d); e != nil {
+				fmt.Fprintln(os.Stderr, "coverage:", e)
+			}
+		}()
+	}
 	sdk.GetConfig() // bech32 prefixes are set by app init
 	if len(os.Args) < 2 {
 		fmt.Println("usage: sgeh hist|replay|kern ...")
